@@ -899,6 +899,45 @@ def construct_kinds_case(case, res):
             res.traces += 1
             res.state(("ctor-kind", n, f, kind))
             check_phase(res, case, f"construct(two operands)|{kind}", p, [w] * (2 if kind == "array,array" else 1), sub)
+    # the two numbers given in narrower floating-point containers (their values are exact doubles): same exact sum
+    for n, f in ((1e6, 0.3), (3.0, -0.3), (2.0 ** 20 + 1, 0.45), (-7.0, 0.123456789), (0.1, 0.7)):
+        for dt_ in (np.float32, np.float16):
+            with np.errstate(over="ignore"):
+                n_, f_ = dt_(n), dt_(f)
+            if not (np.isfinite(n_) and np.isfinite(f_)):
+                continue
+            w = F(float(n_)) + F(float(f_))
+            for kind, fn in ((f"{np.dtype(dt_).name} scalars", lambda: Phase(n_, f_)),
+                             (f"{np.dtype(dt_).name} arrays", lambda: Phase(np.array([n_, n_], dtype=dt_), np.array([f_, f_], dtype=dt_))),
+                             (f"{np.dtype(dt_).name} 0-d arrays", lambda: Phase(np.array(n_, dtype=dt_), np.array(f_, dtype=dt_))),
+                             (f"{np.dtype(dt_).name} Quantity arrays", lambda: Phase(np.array([n_, n_], dtype=dt_) * u.cycle,
+                                                                                      np.array([f_, f_], dtype=dt_) * u.cycle)),
+                             (f"{np.dtype(dt_).name} array alone", lambda: Phase(np.array([f_, f_], dtype=dt_)))):
+                sub = {"n": float(n_), "f": repr(float(f_)), "kind": kind}
+                try:
+                    p = fn()
+                except Exception as e:
+                    res.violation("construct(narrow floats)|raised", f"{kind}: {type(e).__name__}: {e}", case, sub)
+                    continue
+                res.transitions += 1
+                res.state(("ctor-narrow", float(n_), float(f_), kind))
+                wv = F(float(f_)) if kind.endswith("alone") else w
+                check_phase(res, case, f"construct(narrow floats)|{kind}", p, [wv] * (2 if "arrays" in kind and "0-d" not in kind or kind.endswith("alone") else 1), sub)
+    # divisors held in half / single precision
+    for dv_, dt_ in ((0.5, np.float16), (0.75, np.float32), (3.0, np.float16)):
+        p = Phase(1e6, 0.3)
+        d = dt_(dv_) * u.cycle
+        res.transitions += 1
+        try:
+            qq, rr = divmod(p, d)
+            qv = float(u.Quantity(qq).to_value(u.dimensionless_unscaled))
+            rv = exact(rr)[0]
+            pv = exact(p)[0]
+            if not np.isfinite(qv) or abs(int(qv) * F(dv_) + rv - pv) > TOL * max(1, abs(qv)) or not (-TOL <= rv <= F(dv_) + TOL):
+                res.violation("divmod|narrow divisor|value", f"divmod(Phase(1e6, 0.3), {np.dtype(dt_).name}({dv_}) cycle) = ({qv!r}, {rr!r})",
+                              case, {"d": dv_, "dtype": np.dtype(dt_).name})
+        except Exception as e:
+            res.violation("divmod|narrow divisor|raised", f"{type(e).__name__}: {e}", case, {"d": dv_, "dtype": np.dtype(dt_).name})
     res.hits["construction kinds"] += 1
     res.sample({"construct": "Phase(a, b) for 8 operand-kind pairs"}, 1)
 
